@@ -687,8 +687,9 @@ fn main() {
                     }
                 }
             }
-            sp.evals((n * n) as u64); sp.nontrivial(nt);
-            sp.outcomes_n("eq-chain", c_eq); sp.outcomes_n("parent-chain", c_par); sp.outcomes_n("first-premise-false", c_none);
+            // executions counted: one premise test per (a,b) plus one conclusion test per inspected (a,b,c)
+            sp.evals(n as u64 + (n as u64 * n as u64 - c_none)); sp.nontrivial(nt);
+            sp.outcomes_n("eq-chain", c_eq); sp.outcomes_n("parent-chain", c_par); sp.outcomes_n("triples-with-first-premise-false", c_none);
         });
         sp.set("uris", json!(n)); sp.set("tail_length", json!(tri_tail));
         sp.sample_str(|| "a=rsync://a/a/ b=RSYNC://A/a/a c=rsync://a/a/a/A : a parent of b, b parent of c".into());
@@ -713,8 +714,8 @@ fn main() {
                     }
                 }
             }
-            sp.evals((n * n) as u64); sp.nontrivial(nt);
-            sp.outcomes_n("eq-chain", c_eq); sp.outcomes_n("first-premise-false", c_none);
+            sp.evals(n as u64 + (n as u64 * n as u64 - c_none)); sp.nontrivial(nt);
+            sp.outcomes_n("eq-chain", c_eq); sp.outcomes_n("triples-with-first-premise-false", c_none);
         });
         sp.set("uris", json!(n)); sp.set("tail_length", json!(th_tail));
         sp.sample_str(|| "a=https://aA/ b=HTTPS://Aa/ c=https://AA/ : all equal".into());
